@@ -168,6 +168,26 @@ unsafe fn w_drop(p: *const ()) {
     drop(unsafe { Arc::from_raw(p as *const WakeRec) });
 }
 
+/// wake-log ids: closer `c` polled with waker `w` (< 16) is `c * 16 + w`
+const WK: usize = 16;
+
+fn show_wake_log(log: &Arc<Mutex<Vec<usize>>>) -> String {
+    let l = log.lock().unwrap();
+    if l.is_empty() {
+        "-".into()
+    } else {
+        l.iter().map(|x| format!("{}.{}", x / WK, x % WK)).collect::<Vec<_>>().join(",")
+    }
+}
+
+/// the persistent waker `w` of closer `c` (same `Waker` object on every use: `will_wake` is exact)
+fn waker_of(wakers: &mut Vec<Option<Waker>>, c: usize, w: usize, log: &Arc<Mutex<Vec<usize>>>) -> Waker {
+    if wakers.len() < WK {
+        wakers.resize(WK, None);
+    }
+    wakers[w].get_or_insert_with(|| mk_waker(c * WK + w, log)).clone()
+}
+
 fn mk_waker(id: usize, log: &Arc<Mutex<Vec<usize>>>) -> Waker {
     let a = Arc::new(WakeRec { id, log: log.clone() });
     let p = Arc::into_raw(a) as *const ();
@@ -250,7 +270,16 @@ enum Actor<S: Sfd> {
     Handle(S),
     Op(S),
     /// `fut` is `Some` while the future exists; `parked` = last poll returned `Pending`
-    Closer { fut: Option<TakeFut>, polled: bool, parked: bool, wakes_seen: usize, waker: Waker },
+    /// `last_w` = waker of the latest poll; `wakes_seen` / `seen_latest` = wakes of any / of that waker at that poll
+    Closer {
+        fut: Option<TakeFut>,
+        polled: bool,
+        parked: bool,
+        wakes_seen: usize,
+        seen_latest: usize,
+        last_w: usize,
+        wakers: Vec<Option<Waker>>,
+    },
     Gone,
 }
 
@@ -297,7 +326,11 @@ impl<S: Sfd> SfdWorld<S> {
     }
 
     fn wakes_of(&self, c: usize) -> usize {
-        self.wake_log.lock().unwrap().iter().filter(|&&x| x == c).count()
+        self.wake_log.lock().unwrap().iter().filter(|&&x| x / WK == c).count()
+    }
+
+    fn wakes_of_w(&self, c: usize, w: usize) -> usize {
+        self.wake_log.lock().unwrap().iter().filter(|&&x| x == c * WK + w).count()
     }
 
     /// number of values alive that own a reference, by the harness' own book-keeping
@@ -314,11 +347,12 @@ impl<S: Sfd> SfdWorld<S> {
 
     fn line(&self, r: &str) -> String {
         format!(
-            "ok c={} rel={} del={} wk={} r={}",
+            "ok c={} rel={} del={} wk={} wl={} r={}",
             self.count(),
             self.released(),
             self.delivered.len(),
             self.wakes(),
+            show_wake_log(&self.wake_log),
             r
         )
     }
@@ -372,9 +406,15 @@ impl<S: Sfd> SfdWorld<S> {
             },
             "take" => match std::mem::replace(&mut self.actors[id], Actor::Gone) {
                 Actor::Handle(h) => {
-                    let waker = mk_waker(id, &self.wake_log);
-                    self.actors[id] =
-                        Actor::Closer { fut: Some(h.take_()), polled: false, parked: false, wakes_seen: 0, waker };
+                    self.actors[id] = Actor::Closer {
+                        fut: Some(h.take_()),
+                        polled: false,
+                        parked: false,
+                        wakes_seen: 0,
+                        seen_latest: 0,
+                        last_w: 0,
+                        wakers: vec![],
+                    };
                 }
                 other => {
                     self.actors[id] = other;
@@ -382,14 +422,24 @@ impl<S: Sfd> SfdWorld<S> {
                 }
             },
             "poll" => {
+                let wk: usize = match w.get(2) {
+                    Some(x) => x.parse().ok().filter(|x| *x < WK)?,
+                    None => 0,
+                };
                 let seen = self.wakes_of(id);
-                let Actor::Closer { fut, polled, parked, wakes_seen, waker } = &mut self.actors[id] else {
+                let seen_w = self.wakes_of_w(id, wk);
+                let log = self.wake_log.clone();
+                let Actor::Closer { fut, polled, parked, wakes_seen, seen_latest, last_w, wakers } = &mut self.actors[id]
+                else {
                     return None;
                 };
                 let Some(f) = fut.as_mut() else { return None };
                 *wakes_seen = seen;
+                *seen_latest = seen_w;
+                *last_w = wk;
                 *polled = true;
-                let mut cx = Context::from_waker(waker);
+                let waker = waker_of(wakers, id, wk, &log);
+                let mut cx = Context::from_waker(&waker);
                 match f.as_mut().poll(&mut cx) {
                     Poll::Pending => {
                         *parked = true;
@@ -461,8 +511,13 @@ impl<S: Sfd> SfdWorld<S> {
         // a closer that is parked, alone, and has not been woken since its last poll waits forever
         let holders = self.holders();
         for (i, a) in self.actors.iter().enumerate() {
-            if let Actor::Closer { fut: Some(_), parked: true, wakes_seen, .. } = a {
-                if holders == 1 && self.wakes_of(i) == *wakes_seen {
+            if let Actor::Closer { fut: Some(_), parked: true, wakes_seen, seen_latest, last_w, .. } = a {
+                if holders == 1 && self.wakes_of_w(i, *last_w) == *seen_latest && self.wakes_of(i) > *wakes_seen {
+                    ex.fail(
+                        "C06:stale-waker",
+                        format!("closer {i} parked under waker {last_w}, sole owner after `{}`: a waker of an earlier poll was woken ({}), the latest one was not", w.join(" "), show_wake_log(&self.wake_log)),
+                    );
+                } else if holders == 1 && self.wakes_of(i) == *wakes_seen {
                     if rawish {
                         ex.fail(
                             "F8b:sharedfd-raw-drop-lost-wake",
@@ -832,7 +887,15 @@ enum RActor {
     Handle(Obj),
     Helper,
     Op { fut: IoFut, waker: Waker, fed: bool },
-    Closer { fut: Option<CloseFut>, polled: bool, parked: bool, wakes_seen: usize, waker: Waker },
+    Closer {
+        fut: Option<CloseFut>,
+        polled: bool,
+        parked: bool,
+        wakes_seen: usize,
+        seen_latest: usize,
+        last_w: usize,
+        wakers: Vec<Option<Waker>>,
+    },
     Gone,
 }
 
@@ -897,7 +960,11 @@ impl<'a> RtWorld<'a> {
     }
 
     fn wakes_of(&self, c: usize) -> usize {
-        self.wake_log.lock().unwrap().iter().filter(|&&x| x == c).count()
+        self.wake_log.lock().unwrap().iter().filter(|&&x| x / WK == c).count()
+    }
+
+    fn wakes_of_w(&self, c: usize, w: usize) -> usize {
+        self.wake_log.lock().unwrap().iter().filter(|&&x| x == c * WK + w).count()
     }
 
     fn holders(&self) -> usize {
@@ -929,11 +996,11 @@ impl<'a> RtWorld<'a> {
     fn line(&mut self, r: &str) -> String {
         let closed = self.observe_closed();
         let count = if closed { 0 } else { unsafe { std::ptr::read_volatile(self.count_ptr) } };
-        // closers that are parked and have been woken since their last poll
+        // closers that are parked and whose latest waker has been woken since their last poll
         let mut pw = vec![];
         for (i, a) in self.actors.iter().enumerate() {
-            if let RActor::Closer { fut: Some(_), parked: true, wakes_seen, .. } = a {
-                if self.wakes_of(i) > *wakes_seen {
+            if let RActor::Closer { fut: Some(_), parked: true, seen_latest, last_w, .. } = a {
+                if self.wakes_of_w(i, *last_w) > *seen_latest {
                     pw.push(i.to_string());
                 }
             }
@@ -968,7 +1035,7 @@ impl<'a> RtWorld<'a> {
                 let RActor::Handle(h) = &self.actors[id] else { return None };
                 let mut fut = h.start_op();
                 let n = self.actors.len() + 1;
-                let waker = mk_waker(n, &self.wake_log);
+                let waker = mk_waker(n * WK, &self.wake_log);
                 let mut cx = Context::from_waker(&waker);
                 match fut.as_mut().poll(&mut cx) {
                     Poll::Pending => {
@@ -1058,9 +1125,15 @@ impl<'a> RtWorld<'a> {
             }
             "close" => match std::mem::replace(&mut self.actors[id], RActor::Gone) {
                 RActor::Handle(h) => {
-                    let waker = mk_waker(id, &self.wake_log);
-                    self.actors[id] =
-                        RActor::Closer { fut: Some(h.close()), polled: false, parked: false, wakes_seen: 0, waker };
+                    self.actors[id] = RActor::Closer {
+                        fut: Some(h.close()),
+                        polled: false,
+                        parked: false,
+                        wakes_seen: 0,
+                        seen_latest: 0,
+                        last_w: 0,
+                        wakers: vec![],
+                    };
                 }
                 other => {
                     self.actors[id] = other;
@@ -1068,14 +1141,24 @@ impl<'a> RtWorld<'a> {
                 }
             },
             "poll" => {
+                let wk: usize = match w.get(2) {
+                    Some(x) => x.parse().ok().filter(|x| *x < WK)?,
+                    None => 0,
+                };
                 let seen = self.wakes_of(id);
+                let seen_w = self.wakes_of_w(id, wk);
+                let log = self.wake_log.clone();
                 let rt = self.rt;
-                let RActor::Closer { fut, polled, parked, wakes_seen, waker } = &mut self.actors[id] else {
+                let RActor::Closer { fut, polled, parked, wakes_seen, seen_latest, last_w, wakers } = &mut self.actors[id]
+                else {
                     return None;
                 };
                 let Some(f) = fut.as_mut() else { return None };
                 *polled = true;
                 *wakes_seen = seen;
+                *seen_latest = seen_w;
+                *last_w = wk;
+                let waker = waker_of(wakers, id, wk, &log);
                 if self.first_polled.is_none() {
                     self.first_polled = Some(id);
                 }
@@ -1089,7 +1172,7 @@ impl<'a> RtWorld<'a> {
                     if polls > 1 && holders_before != 1 {
                         return true;
                     }
-                    let mut cx = Context::from_waker(waker);
+                    let mut cx = Context::from_waker(&waker);
                     match f.as_mut().poll(&mut cx) {
                         Poll::Ready(x) => {
                             out = Some(x);
@@ -1110,7 +1193,6 @@ impl<'a> RtWorld<'a> {
                     }
                     None => {
                         *parked = true;
-                        *wakes_seen = seen.max(*wakes_seen);
                         r = "pending".into();
                         if holders_before == 1 {
                             ex.fail("C06:close-not-completed", "close() pending although the closer is the only holder");
@@ -1153,8 +1235,13 @@ impl<'a> RtWorld<'a> {
             ex.fail("C06:close-before-release", format!("close() closed the descriptor while {} other holders existed", holders_before - 1));
         }
         for (i, a) in self.actors.iter().enumerate() {
-            if let RActor::Closer { fut: Some(_), parked: true, wakes_seen, .. } = a {
-                if holders == 1 && self.wakes_of(i) == *wakes_seen {
+            if let RActor::Closer { fut: Some(_), parked: true, wakes_seen, seen_latest, last_w, .. } = a {
+                if holders == 1 && self.wakes_of_w(i, *last_w) == *seen_latest && self.wakes_of(i) > *wakes_seen {
+                    ex.fail(
+                        "C06:stale-waker",
+                        format!("{}: close() future {i} parked under waker {last_w}, sole owner after `{}`: a waker of an earlier poll was woken ({}), the latest one was not", self.kind, w.join(" "), show_wake_log(&self.wake_log)),
+                    );
+                } else if holders == 1 && self.wakes_of(i) == *wakes_seen {
                     if rawish {
                         ex.fail(
                             "F8b:sharedfd-raw-drop-lost-wake",
@@ -1664,7 +1751,12 @@ fn generate(tier: &str, rng: &mut Rng) -> Vec<Case> {
                 let k = *rng.pick(&["clone", "op", "drop", "unwrap", "take", "poll", "dropfut"]);
                 format!("{k} {}", rng.below(sh.roles.len() as u64 + 1))
             } else {
-                rng.pick(&evs).clone()
+                let e = rng.pick(&evs).clone();
+                if e.starts_with("poll") && rng.chance(1, 2) {
+                    format!("poll {} {}", e.split_whitespace().nth(1).unwrap(), rng.below(3))
+                } else {
+                    e
+                }
             };
             sh.apply(&e);
             lines.push(e);
@@ -1691,7 +1783,12 @@ fn generate(tier: &str, rng: &mut Rng) -> Vec<Case> {
                 // closes and polls are what the property is about: bias towards them once clones exist
                 let pri: Vec<&String> =
                     evs.iter().filter(|e| e.starts_with("close") || e.starts_with("poll") || e.starts_with("fin") || e.starts_with("cancel")).collect();
-                if !pri.is_empty() && rng.chance(1, 2) { (*rng.pick(&pri)).clone() } else { rng.pick(&evs).clone() }
+                let e = if !pri.is_empty() && rng.chance(1, 2) { (*rng.pick(&pri)).clone() } else { rng.pick(&evs).clone() };
+                if e.starts_with("poll") && rng.chance(1, 2) {
+                    format!("{} {}", e, rng.below(3))
+                } else {
+                    e
+                }
             };
             sh.apply(&e);
             lines.push(e);
@@ -1711,6 +1808,10 @@ fn generate(tier: &str, rng: &mut Rng) -> Vec<Case> {
                 vec!["clone 0", "op 1", "close 0", "poll 0", "drop 1", "poll 0", "fin 3", "poll 0"],
                 vec!["close 0", "poll 0"],
                 vec!["clone 0", "close 0", "poll 0", "dropfut 0", "close 1", "poll 1"],
+                // the pending close changes hands between polls (timeout wrapper, then a spawned task)
+                vec!["clone 0", "close 0", "poll 0 0", "poll 0 1", "drop 1", "poll 0 1"],
+                vec!["clone 0", "op 0", "close 0", "poll 0 1", "drop 1", "poll 0 2", "fin 3", "poll 0 2"],
+                vec!["clone 0", "close 0", "poll 0 2", "poll 0 2", "poll 0 0", "drop 1", "poll 0 0"],
             ]
             .iter()
             .enumerate()
@@ -1876,6 +1977,7 @@ impl ShadowW {
                 1 => v.push(format!("drop {i}")),
                 2 => {
                     v.push(format!("poll {i}"));
+                    v.push(format!("poll {i} 1"));
                     v.push(format!("dropfut {i}"));
                 }
                 _ => {}
